@@ -733,6 +733,9 @@ class SVG:
         new_fill = to_element(gradient)
         # TODO normalize stop elements too
         new_fill.extend(copy.deepcopy(stop) for stop in fill_el)
+        # the copy's stops are new elements, the ids stay with the originals
+        for stop in new_fill:
+            _del_attrs(stop, "id")
 
         self._apply_gradient_translation(new_fill)
 
